@@ -1,7 +1,7 @@
 (* Model of the expression parser of parser.go as it is now: parseExpression (binary levels, then
    the conditional operator), parseBinaryLevel (precedence climbing, every operator left associative:
    the right operand is parsed at precedence + prec_right_incr, also for the power operator),
-   peekBinaryOperator, parseOperand (simple expression, then the postfix loop: index and filters),
+   peekBinaryOperator, parseOperand (simple expression, then the postfix loop: index, filters, attribute / method),
    parseSimpleExpression (unary not / - / +, literals, names with calls and attribute chains, array and
    hash literals, parentheses), parseFilters, parseArrayExpression, parseMapExpression, parseTest.
    Tokens are those of Model/ExprLexer.v; the end of the list stands for the tag-end token that follows
@@ -284,6 +284,18 @@ with xp_postfix (fuel : nat) (e : expr) (ts : list xtok) : xp_res :=
         match xp_filters (xp_expr f) f e ts with
         | Ok (e', ts1) => xp_postfix f e' ts1
         | Err x => Err x | OutOfFuel => OutOfFuel | Unmodelled => Unmodelled
+        end
+      else if xp_at_punct b#"." ts then
+        (* attribute access or method call on the result of an index, a call, a filter or a parenthesis *)
+        match tl ts with
+        | XT XName a :: ts1 =>
+            if xp_at_punct b#"(" ts1 then
+              match xp_list (xp_expr f) f b#")" (tl ts1) with
+              | Ok (args, ts2) => xp_postfix f (EModCall e a args) ts2
+              | Err x => Err x | OutOfFuel => OutOfFuel | Unmodelled => Unmodelled
+              end
+            else xp_postfix f (EAttr e a) ts1
+        | _ => Err EParse
         end
       else Ok (e, ts)
   end
